@@ -17,6 +17,7 @@ import (
 	"os/exec"
 	"os/signal"
 	"path/filepath"
+	"runtime"
 	"sort"
 	"strconv"
 	"strings"
@@ -79,6 +80,9 @@ func ChildLoop(handle func(fields []string) []string) {
 		fields := strings.Split(strings.TrimRight(line, "\n"), "\t")
 		n, _ := strconv.Atoi(fields[0])
 		winNo = n
+		if Injected() != "" {
+			quiesce()
+		}
 		resp := func() (resp []string) {
 			defer func() {
 				if v := recover(); v != nil {
@@ -92,6 +96,25 @@ func ChildLoop(handle func(fields []string) []string) {
 		// synchronise on the end marker.
 		marker("z", n)
 		_, _ = out.WriteString(strings.Join(resp, "\t") + "\n")
+	}
+}
+
+// quiesce lets the garbage collector finalise (close) files leaked by earlier
+// failed saves NOW, between two windows and while this goroutine waits, so that
+// their close(2) calls neither fall into a window nor race with descriptor
+// numbers being handed out again.
+func quiesce() {
+	for i := 0; i < 2; i++ {
+		done := make(chan struct{})
+		sentinel := &struct{ pad [64]byte }{}
+		runtime.SetFinalizer(sentinel, func(*struct{ pad [64]byte }) { close(done) })
+		sentinel = nil
+		_ = sentinel
+		runtime.GC()
+		select {
+		case <-done:
+		case <-time.After(2 * time.Second):
+		}
 	}
 }
 
@@ -127,6 +150,14 @@ type Child struct {
 	pend   map[string]string
 	roots  map[string]string // absolute prefix -> short name ("W", "T")
 	dead   bool
+	carry  []string
+	inWin  map[int]bool // descriptor -> it was opened inside a window
+}
+
+func closedFd(ev string) int {
+	n, _ := strconv.Atoi(strings.TrimPrefix(ev, "x:"))
+
+	return n
 }
 
 // Start launches the current test binary again, under strace, in child mode.
@@ -142,6 +173,11 @@ func Start(t testing.TB, testName, dir string) (c *Child) {
 	args := []string{"-f", "-qq", "-s", "0", "-o", tracePath, "-e", traceSet}
 	if os.Getenv("VERIF_C14_NOSECCOMP") == "" {
 		args = append([]string{"--seccomp-bpf"}, args...)
+	}
+	if inj := os.Getenv("VERIF_C14_INJECT"); inj != "" {
+		// strace's own fault injection, e.g. "fsync:error=EIO": the syscall is not
+		// performed and fails in the child for its whole life.
+		args = append(args, "-e", "inject="+inj)
 	}
 	args = append(args, os.Args[0], "-test.run", "^"+testName+"$", "-test.timeout", "0")
 	cmd := exec.Command("strace", args...)
@@ -161,7 +197,7 @@ func Start(t testing.TB, testName, dir string) (c *Child) {
 	return &Child{
 		cmd: cmd, cmdW: cmdW, respR: bufio.NewReaderSize(respR, 1<<20),
 		traceF: tf, trace: bufio.NewReaderSize(tf, 1<<20),
-		fds: map[int]bool{}, pend: map[string]string{}, roots: map[string]string{},
+		fds: map[int]bool{}, pend: map[string]string{}, roots: map[string]string{}, inWin: map[int]bool{},
 	}
 }
 
@@ -204,6 +240,11 @@ func (c *Child) Do(fields ...string) (resp []string, events []string, err error)
 		return nil, nil, fmt.Errorf("child is dead")
 	}
 	c.n++
+	if len(fields) > 0 && fields[0] == "reset" {
+		// A new block: the model starts from an empty file system, so descriptors
+		// leaked in earlier blocks are none of its business.
+		c.fds, c.inWin, c.carry = map[int]bool{}, map[int]bool{}, nil
+	}
 	_, err = c.cmdW.WriteString(strconv.Itoa(c.n) + "\t" + strings.Join(fields, "\t") + "\n")
 	if err != nil {
 		c.dead = true
@@ -260,6 +301,13 @@ func (c *Child) readLine(deadline time.Time) (string, error) {
 func (c *Child) readWindow(n int) (events []string, err error) {
 	deadline := time.Now().Add(60 * time.Second)
 	in := false
+	carry := c.carry
+	c.carry = nil
+	defer func() {
+		if err == nil {
+			events = append(carry, events...)
+		}
+	}()
 	for {
 		var line string
 		line, err = c.readLine(deadline)
@@ -289,8 +337,17 @@ func (c *Child) readWindow(n int) (events []string, err error) {
 			}
 		}
 		ev := c.event(sc)
-		if ev != "" && in {
+		if ev != "" && (ev[0] == 'c' || ev[0] == 'o') && ev[1] == ':' {
+			c.inWin[int(sc.ret)] = in
+		}
+		switch {
+		case ev == "":
+		case in:
 			events = append(events, ev)
+		case strings.HasPrefix(ev, "x:") && c.inWin[closedFd(ev)]:
+			// A tracked descriptor closed between windows (a leaked file finalised
+			// by the garbage collector): report it with the next window.
+			carry = append(carry, ev)
 		}
 	}
 }
@@ -313,13 +370,25 @@ func (c *Child) parseLine(line string) (sc sysc, ok bool) {
 		return sc, false
 	}
 	if strings.HasSuffix(rest, "<unfinished ...>") {
-		c.pend[pid] = strings.TrimSuffix(rest, "<unfinished ...>")
+		head := strings.TrimSuffix(rest, "<unfinished ...>")
+		if strings.HasPrefix(head, "close(") {
+			// The descriptor is released when close is entered: another thread may
+			// be handed the same number before this call returns.  Order it here.
+			c.pend[pid] = "\x00skip"
+			rest = strings.TrimRight(head, " ") + ") = 0"
+		} else {
+			c.pend[pid] = head
 
-		return sc, false
-	}
-	if strings.HasPrefix(rest, "<... ") {
+			return sc, false
+		}
+	} else if strings.HasPrefix(rest, "<... ") {
 		i := strings.Index(rest, "resumed>")
 		if i < 0 {
+			return sc, false
+		}
+		if c.pend[pid] == "\x00skip" {
+			delete(c.pend, pid)
+
 			return sc, false
 		}
 		rest = c.pend[pid] + rest[i+len("resumed>"):]
@@ -664,12 +733,16 @@ func StartReader(p string) (r *Reader) {
 }
 
 // Stop ends the polling and returns the number of reads and how many of them
-// returned something other than the two given versions.
-func (r *Reader) Stop(oldSum, newSum string) (reads, bad int) {
+// returned something other than the given complete versions.
+func (r *Reader) Stop(allowed ...string) (reads, bad int) {
 	close(r.stop)
 	r.wg.Wait()
 	for s, n := range r.seen {
-		if s != oldSum && s != newSum {
+		ok := false
+		for _, a := range allowed {
+			ok = ok || s == a
+		}
+		if !ok {
 			bad += n
 		}
 	}
@@ -779,6 +852,16 @@ func Probe(blockMode, fault string) string {
 	default:
 		return fault
 	}
+}
+
+// Injected reports the syscall whose failure strace injects for this run ("" if none).
+func Injected() string {
+	inj := os.Getenv("VERIF_C14_INJECT")
+	if i := strings.IndexByte(inj, ':'); i >= 0 {
+		return inj[:i]
+	}
+
+	return inj
 }
 
 // FsizeOf returns the write-fault limit of a probe field, -1 if there is none.
